@@ -201,6 +201,20 @@ func writeUnderGlobalLock(e Effect) bool {
 }
 
 func checkC07(p *Program, r *Report) {
+	// C07.bounds: the codecs reject, they do not panic: the panic-freedom obligations of C08 for everything reachable
+	// from the exported functions of base58 and bech32
+	{
+		var roots []*ssa.Function
+		// (base58.Encode indexes the alphabet with a math/big remainder modulo 58: in range by the meaning of DivMod,
+		// which the prover does not model; the encoders take any byte string and have nothing to reject)
+		for _, e := range [][2]string{{"base58", "Decode"}, {"base58", "CheckDecode"}, {"bech32", "Encode"}, {"bech32", "Decode"}, {"bech32", "ConvertBits"}} {
+			if fn := p.Func(e[0], e[1]); fn != nil {
+				roots = append(roots, fn)
+			}
+		}
+		c08Scope(p, r, p.Reachable(roots), "C07.bounds")
+		r.Floor("C07.bounds", 10)
+	}
 	if radixWrapRule(p, r, "C07.exact", []string{"base58", "bech32"}) == 0 {
 		r.Note("C07.exact: no fixed-width positional accumulator in base58 / bech32 (decoding uses math/big)")
 	}
@@ -428,6 +442,7 @@ func c07tables(p *Program, r *Report, fns map[string]*ssa.Function) {
 			}
 		} else {
 			r.Add(c07TablesRule, FnName(bdec), "bech32 decode charset equals BIP173's and the encoder's", bdec.Pos(), d == bip173Charset && d == e, "searched with strings.IndexByte: position = value")
+			foreignSymbolRejects(p, r, "C07.strict", bdec, "bech32")
 		}
 	}
 	r.Floor(c07TablesRule, 7)
@@ -565,6 +580,51 @@ func radixWrapRule(p *Program, r *Report, rule string, pkgs []string) int {
 					r.Add(rule, FnName(fn), "positional accumulation in a machine word cannot wrap", ph.Pos(), okW, how)
 				}
 			}
+		}
+	}
+	return n
+}
+
+// foreignSymbolRejects: on the decode path below root, the edge on which a character was found to be outside the
+// charset (strings.IndexByte(charset, c) < 0, or == -1) cannot reach an accepting return of its function: a foreign
+// character is refused there and then, not remembered in some side structure that may forget it.
+func foreignSymbolRejects(p *Program, r *Report, rule string, root *ssa.Function, what string) int {
+	n := 0
+	for _, fn := range p.Reachable([]*ssa.Function{root}) {
+		for _, b := range fn.Blocks {
+			iff, ok := lastInstr(b).(*ssa.If)
+			if !ok {
+				continue
+			}
+			bo, ok := iff.Cond.(*ssa.BinOp)
+			if !ok {
+				continue
+			}
+			c, ok := bo.X.(*ssa.Call)
+			if !ok || calleeName(&c.Call) != "strings.IndexByte" {
+				continue
+			}
+			if cs, isC := constString(c.Call.Args[0]); !isC || len(cs) != 32 {
+				continue
+			}
+			k, isK := constInt(bo.Y)
+			if !isK {
+				continue
+			}
+			// which edge means "not in the charset"
+			var bad *ssa.BasicBlock
+			switch {
+			case bo.Op == token.LSS && k == 0, bo.Op == token.EQL && k == -1, bo.Op == token.LEQ && k == -1:
+				bad = b.Succs[0]
+			case bo.Op == token.GEQ && k == 0, bo.Op == token.NEQ && k == -1, bo.Op == token.GTR && k == -1:
+				bad = b.Succs[1]
+			default:
+				continue
+			}
+			n++
+			rej := !canReachAccept(fn, bad)
+			r.Add(rule, FnName(fn), what+": a character outside the charset is refused on the spot", bo.Pos(), rej,
+				map[bool]string{true: "the not-found edge reaches only rejecting returns", false: "from the not-found edge an accepting return is still reachable: whether the string is refused depends on bookkeeping done elsewhere"}[rej])
 		}
 	}
 	return n
